@@ -1,11 +1,11 @@
-;;! C18 case: shape=pair-car op=drop size=100000
-;;! stack=thread bound=60
-;;! verdict: (witness of finding K18f) — Pair, strong boxes, closures and hash sets have no Drop impl that starts the iterative drop handler: dropping a 10^5 chain of pairs overflows a 2 MiB stack (10^6: 8 MiB)
+;;! C18 case: shape=closure op=drop size=100000
+;;! stack=thread bound=30
+;;! verdict: (witness of finding K18f) — closure captures and strong boxes have no Drop impl that starts IterativeDropHandler: dropping (or engine teardown with) a 10^5 chain of closures overflows a 2 MiB stack, 10^6 an 8 MiB stack
 ;;! model: drop_native_recursion
 ;;! replay: ./check C18 --replay <this file>   (pieces are separated by the line ;;;---)
 (struct node (next) #:transparent)
 (struct mnode (next) #:mutable #:transparent)
-(define (nest-d n acc) (if (= n 0) acc (nest-d (- n 1) (cons acc 1))))
+(define (nest-d n acc) (if (= n 0) acc (nest-d (- n 1) (let ((a acc)) (lambda () a)))))
 (define d (nest-d 100000 0))
 
 ;;;---
